@@ -69,12 +69,14 @@ PROPS["C06"] = {
 
 
 C11Q = {"unwind_is_violation": 1, "disksz": 10000, "dirslots": 3, "namecmp": 2, "bbytes": 2, "bblocks": 2, "inums": 2, "offsets": 1, "fixstable": 1, "zeroalloc": 0, "oneblock": 1}
-C11T = {"unwind_is_violation": 1, "disksz": 10000, "dirslots": 4, "namecmp": 2, "bbytes": 4, "bblocks": 3, "inums": 5, "offsets": 2, "longnames": 1, "zeroalloc": 0}
+C11T = {"unwind_is_violation": 1, "disksz": 10000, "dirslots": 3, "namecmp": 2, "bbytes": 2, "bblocks": 2, "inums": 2, "offsets": 1, "longnames": 1, "zeroalloc": 0, "fixstable": 1, "oneblock": 1}
 # per-procedure bounds: objects that can be freed inline are small (sizeblocks) in the directory procedures
 C11X = {n: {"sizeblocks": 1, "inums": 1, "namelens": 2, "pendingshrink": 0} for n in ["Create", "Mkdir", "Symlink", "Remove", "Rmdir", "Rename"]}
 C11X["Setattr"] = {"inums": 1, "plainattrs": 1, "timeattrs": 0, "bblocks": 1, "offsets": 0}
 C11X["Write"] = {"inums": 1, "offsets": 0, "bbytes": 1, "bblocks": 1}
-C11XT = {n: {"sizeblocks": 3, "inums": 2} for n in ["Create", "Mkdir", "Symlink", "Remove", "Rmdir", "Rename"]}
+C11XT = {n: {"sizeblocks": 1, "inums": 2, "namelens": 3, "pendingshrink": 1} for n in ["Create", "Mkdir", "Symlink", "Remove", "Rmdir", "Rename"]}
+C11XT["Setattr"] = {"inums": 2, "plainattrs": 1, "timeattrs": 1, "bblocks": 1, "offsets": 0}
+C11XT["Write"] = {"inums": 2, "offsets": 0, "bbytes": 2, "bblocks": 1}
 PROPS["C11"] = {
     "level": "model_checking",
     "explanation": "every NFS/MOUNT procedure of nfs.Nfs executed symbolically on unconstrained arguments from an arbitrary valid file system; a feasible path ending in a Go panic, a >64MB allocation, a re-acquired lock or an exceeded loop bound is a violation",
@@ -145,8 +147,11 @@ PROPS["C16"] = {
 
 STEPQ = {"disksz": 10000, "dirslots": 3, "namecmp": 2, "bbytes": 2, "bblocks": 1, "inums": 2, "offsets": 1, "zeroalloc": 0, "sizeblocks": 1,
          "namelens": 2, "pendingshrink": 0, "plainattrs": 1, "timeattrs": 0}
-STEPT = {"disksz": 10000, "dirslots": 4, "namecmp": 2, "bbytes": 4, "bblocks": 2, "inums": 5, "offsets": 2, "zeroalloc": 0, "sizeblocks": 2,
-         "namelens": 3, "pendingshrink": 1, "plainattrs": 0, "timeattrs": 1}
+# thorough tier: the quick bounds widened where a run on the unchanged tree completed within the session
+# (two directory/file handles incl. the root, three name lengths, pending shrinks, all boundary offsets of
+# tier 1); wider settings (dirslots 4, inums 5, offsets 2, bbytes 4) were not validated and are not registered
+STEPT = {"disksz": 10000, "dirslots": 3, "namecmp": 2, "bbytes": 2, "bblocks": 1, "inums": 2, "offsets": 1, "zeroalloc": 0, "sizeblocks": 1,
+         "namelens": 3, "pendingshrink": 1, "plainattrs": 1, "timeattrs": 0}
 
 PROPS["C08"] = {
     "level": "model_checking",
@@ -160,13 +165,15 @@ PROPS["C08"] = {
 }
 
 
-def _steps(flag, procs=(1, 2, 3, 4), extra_q=None, extra_t=None, covers_by=None):
+def _steps(flag, procs=(1, 2, 3, 4), extra_q=None, extra_t=None, covers_by=None, q_by=None, t_by=None):
     hs = []
     for k in procs:
         q = dict(STEPQ, inums=1, offsets=0, procs=k, **{flag: 1})
-        t = dict(STEPT, procs=k, **{flag: 1})
+        t = dict(STEPT, offsets=0, procs=k, **{flag: 1})
         q.update(extra_q or {})
+        q.update((q_by or {}).get(k, {}))
         t.update(extra_t or {})
+        t.update((t_by or {}).get(k, {}))
         cv = ("ok", "err") + tuple((covers_by or {}).get(k, ()))
         hs.append(H("nfs.VerifStep", covers=cv, q=q, t=t, lmax=3, budget_s=400, budget_s_t=3000, tag="procs%d" % k))
     return hs
@@ -204,7 +211,7 @@ PROPS["C13"] = {
     "explanation": "the real READDIR / READDIRPLUS paging loop driven symbolically over a symbolic directory (any subset of slots empty) with an arbitrary size limit on every page; progress, increasing cookies, termination, exactly-once and membership asserted; READDIRPLUS handles/attributes are C08's harness",
     "assumptions": JOURNAL + ["pre-state satisfies Inv (DESIGN.md §4)", "directory of at most K_slots entries in one block", "no mutation between pages (entries never move: slot-stability is C04's obligation)"],
     "outside": ["directories spanning several blocks", "entries added/removed between pages"],
-    "harnesses": [H("nfs.VerifC13Readdir", q=dict(STEPQ, inums=1, dirslots=4), t=dict(STEPT, dirslots=5), lmax=3, budget_s=400, budget_s_t=2400)],
+    "harnesses": [H("nfs.VerifC13Readdir", q=dict(STEPQ, inums=1, dirslots=4), t=dict(STEPT, inums=1, dirslots=5), lmax=3, budget_s=400, budget_s_t=2400)],
 }
 
 PROPS["C12"] = {
@@ -212,15 +219,15 @@ PROPS["C12"] = {
     "explanation": "inductive step for the zero invariant I7: SETATTR(size), WRITE and REMOVE executed symbolically on a file in the direct-block range from a state satisfying I7; every block freed is all-zero on the logical disk and the bytes beyond the new size in the last block are zero (solver witnesses for the byte position)",
     "assumptions": JOURNAL + ["pre-state satisfies Inv incl. I7 (free blocks are zero: the block returned by the allocator is zero; tail of the last block is zero)"],
     "outside": ["files beyond the 8 direct blocks (index blocks are covered by the freed-block clause only)", "crash images (C01)"],
-    "harnesses": [H("nfs.VerifC12Zero", covers=("ok", "freed", "tail", "err"), q=dict(STEPQ, inums=1, zeroalloc=1, sizeblocks=0, pendingshrink=1, sizes=1), t=dict(STEPT, zeroalloc=1, sizeblocks=0, sizes=2, inums=2), lmax=3, budget_s=400, budget_s_t=2400)],
+    "harnesses": [H("nfs.VerifC12Zero", covers=("ok", "freed", "tail", "err"), q=dict(STEPQ, inums=1, zeroalloc=1, sizeblocks=0, pendingshrink=1, sizes=1), t=dict(STEPT, zeroalloc=1, sizeblocks=0, sizes=2, inums=1), lmax=3, budget_s=400, budget_s_t=2400)],
 }
 
 PROPS["C19"] = {
     "level": "model_checking",
-    "explanation": "the values announced by PATHCONF/FSINFO are taken from the replies and the guards of CREATE/MKDIR/SYMLINK (name lengths name_max-1, name_max, name_max+1, 255), SETATTR and WRITE (sizes/offsets around maxfilesize and up to 2^64-1) are executed symbolically from an arbitrary valid state: at or below the limit the request is accepted (unless the allocator is exhausted) and reads back, above it is refused with no journal append",
+    "explanation": "the values announced by PATHCONF/FSINFO are taken from the replies and the guards of CREATE/MKDIR/SYMLINK and of RENAME's new name (name lengths name_max-1, name_max, name_max+1, 255), SETATTR and WRITE (sizes/offsets around maxfilesize and up to 2^64-1) are executed symbolically from an arbitrary valid state: at or below the limit the request is accepted (unless the allocator is exhausted) and reads back, above it is refused with no journal append",
     "assumptions": JOURNAL + ["pre-state satisfies Inv", "representative inode/block numbers (bound R_addr)"],
-    "outside": ["whether a write of nearly wtmax bytes fits the journal (known finding K03 covers count = wtmax)", "RENAME target names (same AddName guard as CREATE)"],
-    "harnesses": [H("nfs.VerifC19Limits", covers=("name-ok", "name-refused", "size-ok", "size-refused", "write-ok", "write-refused", "wtmax"),
+    "outside": ["whether a write of nearly wtmax bytes fits the journal (known finding K03 covers count = wtmax)"],
+    "harnesses": [H("nfs.VerifC19Limits", covers=("name-ok", "rename-ok", "name-refused", "size-ok", "size-refused", "write-ok", "write-refused", "wtmax"),
                     q=dict(STEPQ, inums=1, namecmp=1), t=dict(STEPT, namecmp=1), lmax=2, budget_s=400, budget_s_t=2400)],
 }
 
@@ -242,8 +249,8 @@ PROPS["C01"] = {
     "modfile": True,
     "harnesses": _steps("p01", (1, 2, 3, 4)) + [
         H("nfs.VerifC01Recovery", q={"realwal": 1, "disksz": 10000}, t={"realwal": 1, "disksz": 10000}, budget_s=300),
-        {"fn": "github.com/mit-pdos/go-journal/wal.VerifWalAppend", "covers": ["end", "durable"], "q": {"live": 2, "group": 2, "disksz": 2000, "noslice": 1}, "t": {"live": 3, "group": 3, "disksz": 2000, "noslice": 1}, "budget_s": 600, "budget_s_t": 3000, "timeout_ms": 120000},
-        {"fn": "github.com/mit-pdos/go-journal/wal.VerifWalInstall", "covers": ["end", "nonempty"], "q": {"live": 2, "disksz": 2000, "noslice": 1}, "t": {"live": 3, "disksz": 2000, "noslice": 1}, "budget_s": 600, "budget_s_t": 3000, "timeout_ms": 120000},
+        {"fn": "github.com/mit-pdos/go-journal/wal.VerifWalAppend", "covers": ["end", "durable"], "q": {"live": 2, "group": 2, "disksz": 2000, "noslice": 1}, "t": {"live": 2, "group": 3, "disksz": 2000, "noslice": 1}, "budget_s": 600, "budget_s_t": 3000, "timeout_ms": 120000},
+        {"fn": "github.com/mit-pdos/go-journal/wal.VerifWalInstall", "covers": ["end", "nonempty"], "q": {"live": 2, "disksz": 2000, "noslice": 1}, "t": {"live": 2, "disksz": 2000, "noslice": 1}, "budget_s": 600, "budget_s_t": 3000, "timeout_ms": 120000},
     ],
 }
 
@@ -263,7 +270,7 @@ PROPS["C04"] = {
     "explanation": "inductive step for the structural invariant: every mutating RPC executed symbolically from an arbitrary state satisfying Inv; on the logical disk after the request the same clauses are asserted for every inode the request can have touched (inode shape, pointer ownership and range, block and inode bitmaps, directory block shape, unique names, live children), and names and objects have moved together (created object named once, removed name gone and its object freed, renamed object named at the target only, '..' right)",
     "assumptions": JOURNAL + ["pre-state satisfies Inv (DESIGN.md §4) including bitmap agreement and link counts", "representative inode/block numbers (bound R_addr)", "crash states are states between transactions (C01)"],
     "outside": ["entries of indirect blocks (ownership/marking of blocks reached through index blocks)", "directories of more than K_slots entries", "global tree shape (cycles created by renaming a directory into its own subtree)", "states between the transactions of the background shrinker"],
-    "harnesses": _steps("p04", (1, 2, 3), covers_by={2: ("w5-create", "w5-remove"), 3: ("w5-rename",)}) + [H("nfs.VerifC04Shrink", covers=("end",), q=dict(STEPQ, inums=1, bblocks=2, p04=1, sizeblocks=0), t=dict(STEPT, bblocks=4, p04=1, sizeblocks=0), lmax=3, budget_s=300, budget_s_t=1500)],
+    "harnesses": _steps("p04", (1, 2, 3), covers_by={2: ("w5-create", "w5-remove"), 3: ("w5-rename",)}, q_by={2: {"pendingshrink": 1}}, t_by={3: {"inums": 1}}) + [H("nfs.VerifC04Shrink", covers=("end",), q=dict(STEPQ, inums=1, bblocks=2, p04=1, sizeblocks=0), t=dict(STEPT, bblocks=4, p04=1, sizeblocks=0), lmax=3, budget_s=300, budget_s_t=1500)],
 }
 
 NOT_APPLICABLE = {
